@@ -1,6 +1,179 @@
-/-! line protocol for C15 (stub: no model yet) -/
-namespace ObiVerif.Driver.C15
+import ObiVerif.Model.Tag
+import ObiVerif.Driver.Util
+/-!
+line protocol for C15 (see `harness/c15.go`)
 
-def run (_line : String) : String := "bad-op"
+```
+cw  A B                          -> n
+fc1|fc2 Q R1,R2,… | o1,o2,… l1:a1,l2:a2,…                     -> maxe num/den bestmatch idx,idx,…  | panic
+ix  s R1,… T1,… id:parent,… | o… l:a…                          -> d:taxid d:taxid …                 | empty
+id1|id2 Q R1,… T1,… id:parent,… | o… l:a… | o… l:a… | …        -> taxid bestmatch count
+qg A maxlen / qgn A k                                           -> count minslack sumslack
+```
+`-` = empty sequence, `_` = empty list.  After ` | ` : the candidate order of the code and the unbounded
+`lcs:alilength` of each reference (one section for the query, then one per indexed reference for `id*`).
+Lengths and shared 4-mer counts are recomputed here from the sequences.
+-/
+namespace ObiVerif.Driver.C15
+open ObiVerif.Tag ObiVerif.Driver
+open ObiVerif.Kmer (Bytes)
+
+def listOf {α : Type} (f : String → Option α) (s : String) : Option (List α) :=
+  if s = "_" then some [] else (s.splitOn ",").mapM f
+
+def pairOf (s : String) : Option (Nat × Nat) :=
+  match s.splitOn ":" with
+  | [a, b] => do
+    let a ← a.toNat?
+    let b ← b.toNat?
+    pure (a, b)
+  | _ => none
+
+def getCand (l : List Cand) (i : Nat) : Cand := l.getD i ⟨0, 0, 0, 0⟩
+
+/-- one scan: the candidates of `refs` seen from `q`, with the measured `lcs:ali` -/
+def mkCands (q : Bytes) (refs : List Bytes) (la : List (Nat × Nat)) : List Cand :=
+  let cq := Kmer.count4mer q
+  (refs.zip la).map fun (r, p) => ⟨r.length, common4mer cq (Kmer.count4mer r), p.1, p.2⟩
+
+/-- is `o` a permutation of `0..n-1` sorted by non-increasing shared count? (what the theorems assume) -/
+def orderOk (cs : List Cand) (o : List Nat) : Bool :=
+  o.length = cs.length && (List.range cs.length).all (fun i => o.contains i) &&
+  (o.zip (o.drop 1)).all (fun p => (getCand cs p.2).cw ≤ (getCand cs p.1).cw)
+
+/-- a section `o… l:a…` -/
+def parseRow (q : Bytes) (refs : List Bytes) (sec : String) : Option (List Cand × List Nat) :=
+  match words sec with
+  | [o, la] => do
+    let o ← listOf String.toNat? o
+    let la ← listOf pairOf la
+    if la.length ≠ refs.length then none else
+    let cs := mkCands q refs la
+    if orderOk cs o then pure (cs, o) else none
+  | _ => none
+
+def showFrac (p : Nat × Nat) : String :=
+  if p.2 = 0 then "nan" else
+  let g := Nat.gcd p.1 p.2
+  s!"{p.1 / g}/{p.2 / g}"
+
+def showNats (l : List Nat) : String := if l.isEmpty then "_" else ",".intercalate (l.map toString)
+
+def showFC : FCOut → String
+  | .panic => "panic"
+  | .ok e b m idxs => s!"{e} {showFrac b} {m} {showNats idxs}"
+
+def showBad : Tax.Bad → String
+  | .err => "err" | .panic => "panic" | .hang => "hang" | .fatal => "fatal"
+
+def mkTaxo (nodes : List (Nat × Nat)) : Tax.Taxo :=
+  { ids := nodes.map (·.1), node := fun k => (nodes.lookup k).map (fun p => ⟨p, ""⟩), alias := fun _ => none }
+
+def showIndex (idx : List (Nat × Nat)) : String :=
+  if idx.isEmpty then "empty" else joinSp (idx.reverse.map fun e => s!"{e.1}:{e.2}")
+
+def variantOf (op : String) : Variant := if op = "fc2" ∨ op = "id2" then .tag2 else .tag1
+
+def runFC (op q rs sec : String) : String :=
+  match unhex q, listOf unhex rs with
+  | some q, some refs =>
+    match parseRow q refs sec with
+    | some (cs, o) => showFC (findClosests (variantOf op) q.length (getCand cs) o)
+    | none => "bad-data"
+  | _, _ => "bad-op"
+
+def runIX (s rs ts tx sec : String) : String :=
+  match s.toNat?, listOf unhex rs, listOf String.toNat? ts, listOf pairOf tx with
+  | some s, some refs, some taxids, some nodes =>
+    if s ≥ refs.length ∨ taxids.length ≠ refs.length then "bad-op" else
+    let seq := refs.getD s []
+    match parseRow seq refs sec with
+    | some (cs, o) =>
+      match indexSequence (mkTaxo nodes) (nodes.length + 1) taxids s seq.length (getCand cs) o with
+      | .ok idx => showIndex idx
+      | .error e => showBad e
+    | none => "bad-data"
+  | _, _, _, _ => "bad-op"
+
+def runID (op q rs ts tx : String) (secs : List String) : String :=
+  match unhex q, listOf unhex rs, listOf String.toNat? ts, listOf pairOf tx with
+  | some q, some refs, some taxids, some nodes =>
+    if taxids.length ≠ refs.length ∨ secs.length ≠ refs.length + 1 then "bad-op" else
+    match parseRow q refs (secs.headD "") with
+    | none => "bad-data"
+    | some (cs, o) =>
+      let rows := ((List.range refs.length).zip (secs.drop 1)).mapM fun (j, sec) => parseRow (refs.getD j []) refs sec
+      match rows with
+      | none => "bad-data"
+      | some rows =>
+        let t := mkTaxo nodes
+        let fuel := nodes.length + 1
+        let index := fun b =>
+          match rows[b]? with
+          | some (csb, ob) => indexSequence t fuel taxids b (refs.getD b []).length (getCand csb) ob
+          | none => .error .panic
+        match identify t fuel (findClosests (variantOf op) q.length (getCand cs) o) index with
+        | .bad e => showBad e
+        | .ok z m n => s!"{z} {m} {n}"
+  | _, _, _, _ => "bad-op"
+
+/-! q-gram slack over whole neighbourhoods -/
+
+def acgt : List UInt8 := [97, 99, 103, 116]
+
+def isAcgt (s : Bytes) : Bool := s.all (fun b => acgt.contains b)
+
+def wordsOfLen : Nat → List Bytes
+  | 0 => [[]]
+  | n + 1 => (wordsOfLen n).flatMap fun w => acgt.map fun b => b :: w
+
+/-- every word obtained by one substitution (by another base), one insertion, one deletion — with repetitions -/
+def edits1 (a : Bytes) : List Bytes :=
+  let n := a.length
+  let subs := (List.range n).flatMap fun i =>
+    (acgt.filter (fun b => some b ≠ a[i]?)).map fun b => a.take i ++ b :: a.drop (i + 1)
+  let ins := (List.range (n + 1)).flatMap fun i => acgt.map fun b => a.take i ++ b :: a.drop i
+  let dels := (List.range n).map fun i => a.take i ++ a.drop (i + 1)
+  subs ++ ins ++ dels
+
+/-- `slack a b` with the 4-mer table of `a` computed once (`ca = count4mer a`) -/
+def slackWith (ca : Array Nat) (a b : Bytes) : Int :=
+  let p := lcsPair a b
+  let cw := if b.length < 4 then 0 else common4mer ca (Kmer.count4mer b)
+  (cw : Int) + 3 + 4 * ((p.2 - p.1 : Nat) : Int) - ((max a.length b.length : Nat) : Int)
+
+def summarize (a : Bytes) (bs : List Bytes) : String :=
+  let ca := Kmer.count4mer a
+  let r := bs.foldl (fun (acc : Nat × Int × Int) b =>
+    let s := slackWith ca a b
+    (acc.1 + 1, min acc.2.1 s, acc.2.2 + s)) (0, (1073741824 : Int), 0)
+  s!"{r.1} {r.2.1} {r.2.2}"
+
+def run (line : String) : String :=
+  match line.splitOn " | " with
+  | [] => "bad-op"
+  | head :: secs =>
+    match words head, secs with
+    | ["cw", a, b], [] =>
+      match unhex a, unhex b with
+      | some a, some b => toString (common4 a b)
+      | _, _ => "bad-op"
+    | ["fc1", q, rs], [sec] => runFC "fc1" q rs sec
+    | ["fc2", q, rs], [sec] => runFC "fc2" q rs sec
+    | ["ix", s, rs, ts, tx], [sec] => runIX s rs ts tx sec
+    | ["id1", q, rs, ts, tx], secs => runID "id1" q rs ts tx secs
+    | ["id2", q, rs, ts, tx], secs => runID "id2" q rs ts tx secs
+    | ["qg", a, n], [] =>
+      match unhex a, n.toNat? with
+      | some a, some n =>
+        if !isAcgt a ∨ n > 8 then "bad-op" else
+        summarize a ((List.range (n + 1)).flatMap wordsOfLen)
+      | _, _ => "bad-op"
+    | ["qgn", a, k], [] =>
+      match unhex a, k.toNat? with
+      | some a, some 1 => if isAcgt a then summarize a (edits1 a) else "bad-op"
+      | some a, some 2 => if isAcgt a then summarize a ((edits1 a).flatMap edits1) else "bad-op"
+      | _, _ => "bad-op"
+    | _, _ => "bad-op"
 
 end ObiVerif.Driver.C15
